@@ -103,12 +103,13 @@ class C14(Property):
             repl = next((c for c in r.children if isinstance(c, Tok)), None)
             if repl is None:
                 return None if impl == "NO-REPLACEMENT-TOKEN" else "expected NO-REPLACEMENT-TOKEN"
-        if not impl.endswith("orig_unchanged=1"):
+        if "orig_unchanged=1" not in impl.split(" "):
             return "the original tree (or a red tree on it) changed: " + impl[-60:]
         if repl.kind != target.kind:
             return None if impl.startswith("PANIC:k") else "kind mismatch must panic, got " + impl[:80]
         new = subst(t, list(path), repl)
-        exp = "%s text=%s ranges=%s orig_unchanged=1" % (new.dump(), show_text(new.text_of()), ",".join(T(new).show(q) for q in T(new).order))
+        # fresh=11: the result is equal to, and hashes like, the same tree constructed from scratch
+        exp = "%s text=%s ranges=%s orig_unchanged=1 fresh=11" % (new.dump(), show_text(new.text_of()), ",".join(T(new).show(q) for q in T(new).order))
         if impl != exp:
             return "got `%s`, expected `%s`" % (impl[:400], exp[:400])
         return None
